@@ -99,10 +99,23 @@ def escapeChars : List Char → List Char
   | [] => []
   | c :: cs => if c == '"' || c == '\\' then '\\' :: c :: escapeChars cs else c :: escapeChars cs
 
-def unescapeChars : List Char → List Char
+def isEscd (c : Char) : Bool := c == '"' || c == '\\'
+
+/-- loop of `destringify` (`c2mir.c:1797-1799`): a backslash is dropped when the next character is
+`\` or `"`, and the scan then continues *at that next character* -/
+def destrLoop : List Char → List Char
   | [] => []
-  | '\\' :: c :: cs => c :: unescapeChars cs
-  | c :: cs => c :: unescapeChars cs
+  | [c] => [c]
+  | c :: d :: rest =>
+    if c == '\\' && isEscd d then destrLoop (d :: rest) else c :: destrLoop (d :: rest)
+
+/-- the loop with `fixes/C09-destringify-escape-pairs.patch`: the escaped character is copied and
+skipped -/
+def destrLoopFixed : List Char → List Char
+  | [] => []
+  | [c] => [c]
+  | c :: d :: rest =>
+    if c == '\\' && isEscd d then d :: destrLoopFixed rest else c :: destrLoopFixed (d :: rest)
 
 /-- spelling of one token inside the string made by `#`: `"` and `\` of string literals and
 character constants are escaped, every other token is copied -/
@@ -121,14 +134,29 @@ def strBody : Bool → List Tok → List Char
 def stringifyArg (ws : Ws) (arg : List Tok) : Tok :=
   { sp := String.ofList (['"'] ++ strBody true arg ++ ['"']), ws := ws }
 
-/-- `stringify` / `destringify` of the code (`c2mir.c:1778-1800`; used for `__FILE__`, `#line`
-names and `_Pragma`): every `"` and `\` is escaped / unescaped -/
+/-- `stringify` of the code (`c2mir.c:1778-1787`; used for `__FILE__` and `#line` names): every
+`"` and `\` is escaped -/
 def stringify (s : List Char) : List Char := ['"'] ++ escapeChars s ++ ['"']
 
-def destringify (r : List Char) : List Char :=
+def stripQuotesC (r : List Char) : List Char :=
   match r with
-  | '"' :: rest => unescapeChars rest.dropLast
-  | _ => unescapeChars r
+  | [] => []
+  | ['"'] => []
+  | '"' :: rest => if rest.getLast? == some '"' then rest.dropLast else rest
+  | r => if r.getLast? == some '"' then r.dropLast else r
+
+/-- `destringify` of the code (`c2mir.c:1789-1800`; used for the operand of `_Pragma`) -/
+def destringifyC (r : List Char) : List Char := destrLoop (stripQuotesC r)
+
+/-- `destringify` with the candidate repair -/
+def destringifyFixed (r : List Char) : List Char := destrLoopFixed (stripQuotesC r)
+
+/-- strings on which the unrepaired `destringify` inverts `stringify`: no backslash is directly
+followed by a backslash or a double quote -/
+def noEscPair : List Char → Bool
+  | [] => true
+  | [_] => true
+  | c :: d :: rest => !(c == '\\' && isEscd d) && noEscPair (d :: rest)
 
 /-! ## macro definitions -/
 
@@ -294,7 +322,7 @@ def substItems (raw exp : List (List Tok)) : Bool → List RItem → List PItem
     | .param i ws =>
       if prevPaste || nextPaste then
         let a := raw.getD i []
-        (if a.isEmpty then [PItem.placemarker ws] else insertArg ws a) ++ substItems raw exp false rest
+        (if a.isEmpty then [PItem.placemarker ws] else insertArg ws a) ++ afterArg (substItems raw exp false rest)
       else
         insertArg ws (exp.getD i []) ++ afterArg (substItems raw exp false rest)
 
